@@ -81,6 +81,10 @@ UNREACHABLE = [
     'surf = transformation(transform_parsed[int(transform_id)], surf)',
     "msg = f'Unexpected number of parameters for cone", 'raise ValueError(msg)',
     'compl_params = (*compl_params, None)',
+    # get_surfaces: the lim argument is never given
+    'break',
+    # mcnp_to_mip is always called with an enum member
+    's = en',
     # forcad._normal: self-check that cannot fail
     'print(x, y, z)', 'print(a, b, c)', 'print(check1, check2)',
     "raise ValueError('Normal vector not normal or zero')",
@@ -112,6 +116,13 @@ def anchored_functions():
               conv.convert_special_quadric, conv.eval_quadric,
               conv.convert_quadric, conv.convert_torus, conv.convert_cone,
               conv.convert_mcnp_surface]
+    from MIP.geom import surfaces
+    from MIP.mip import surfacecard, datacard
+    from MIP.mip.main import Card
+    from t4_geom_convert.Kernel.Surface import ESurfaceTypeMCNP as enum_mod
+    funcs += [surfaces.get_surfaces, surfacecard.split, datacard.to_float,
+              Card.content, enum_mod.string_to_enum, enum_mod.mcnp_to_mip,
+              ParseMCNPSurface.to_surfaces_mcnp]
     if hasattr(conv, 'sq_to_gq'):
         funcs.append(conv.sq_to_gq)
     funcs += [SurfaceCollection.join, SurfaceCollection.__init__,
